@@ -1559,7 +1559,8 @@ theorem rsim_spec (m : Mdl) (H k : Nat) : ∀ (fuel : Nat) (t : RTree) (p : Path
     (t' : RTree) (r : Rat) (rest : List Step), depth < H →
     rsim m H k fuel t p s depth log = some (t', r, rest) →
     (∃ used, log = used ++ rest ∧ used.length ≤ H - depth ∧ IsChain s used) ∧
-    (∀ pend, RCnt pend t → RCnt pend t') ∧ (∀ q, t'.nA q = t.nA q ∨ t.nA q = 0) := by
+    (∀ pend, RCnt pend t → RCnt pend t') ∧ (∀ q, t'.nA q = t.nA q ∨ t.nA q = 0) ∧
+    t'.stops [] = t.stops [] ∧ (t'.nN p = t.nN p + 1 ∧ ∀ q, ¬ p <+: q → t'.nN q = t.nN q) := by
   intro fuel
   induction fuel with
   | zero => intro t p s depth log t' r rest _ h; simp [rsim] at h
@@ -1619,7 +1620,11 @@ theorem rsim_spec (m : Mdl) (H k : Nat) : ∀ (fuel : Nat) (t : RTree) (p : Path
             · simp at hr
             · rename_i t2 hal
               obtain ⟨a1, a2, a3, a4⟩ := ralloc_spec hal
-              obtain ⟨⟨used, hu, hlen, hch⟩, hcnt, hnA⟩ := ih _ _ _ _ _ _ _ _ hdeep.1.1 hr
+              obtain ⟨⟨used, hu, hlen, hch⟩, hcnt, hnA, hst, hN1, hNf⟩ := ih _ _ _ _ _ _ _ _ hdeep.1.1 hr
+              have hnp : ¬ (p ++ [(st.a, st.o)]) <+: p := by
+                intro hk
+                have := hk.length_le
+                simp at this
               have hnA_all : ∀ q, t3.nA q = t.nA q ∨ t.nA q = 0 := by
                 intro q
                 rcases a4 q with h2 | h2
@@ -1628,7 +1633,13 @@ theorem rsim_spec (m : Mdl) (H k : Nat) : ∀ (fuel : Nat) (t : RTree) (p : Path
                   · left; rw [h3, h2]
                   · right; rw [← h2]; exact h3
                 · rw [d2] at h2; right; exact h2
-              refine ⟨⟨st :: used, by rw [hu]; rfl, by simp; omega, ⟨hs, hch⟩⟩, fun pend hI => ?_, fun q => ?_⟩
+              refine ⟨⟨st :: used, by rw [hu]; rfl, by simp; omega, ⟨hs, hch⟩⟩, fun pend hI => ?_, fun q => ?_, ?_, ?_, fun q hq => ?_⟩
+              rotate_left 2
+              · rw [(rup_fields m k t3 p st.a depth imm).2.2.1, hst, a3, d3]
+              · rw [(rup_fields m k t3 p st.a depth imm).1, hNf p hnp, a1, d1]; simp [upd]
+              · have hne : q ≠ p := fun h => hq (h ▸ List.prefix_refl _)
+                have hq' : ¬ (p ++ [(st.a, st.o)]) <+: q := fun h => hq (List.IsPrefix.trans (List.prefix_append _ _) h)
+                rw [(rup_fields m k t3 p st.a depth imm).1, hNf q hq', a1, d1]; simp [upd, hne]
               · have h1 := (hdown pend hI).of_nA a1 a2 a3 a4
                 have h2 := hcnt _ h1
                 have ha3 : st.a < t3.nA p := by
@@ -1639,7 +1650,21 @@ theorem rsim_spec (m : Mdl) (H k : Nat) : ∀ (fuel : Nat) (t : RTree) (p : Path
               · rw [(rup_fields m k t3 p st.a depth imm).2.1]; exact hnA_all q
           · simp at hr
             obtain ⟨rfl, _, rfl⟩ := hr
-            refine ⟨⟨[st], rfl, by simp; omega, ⟨hs, trivial⟩⟩, fun pend hI => ?_, fun q => ?_⟩
+            have hne0 : ([] : Path) ≠ p ++ [(st.a, st.o)] := by simp
+            have hnep : p ≠ p ++ [(st.a, st.o)] := ne_append_singleton p _
+            refine ⟨⟨[st], rfl, by simp; omega, ⟨hs, trivial⟩⟩, fun pend hI => ?_, fun q => ?_, ?_, ?_, fun q hq => ?_⟩
+            rotate_left 2
+            · rw [(rup_fields m k _ p st.a depth _).2.2.1]
+              show upd (rdown t p st).1.stops _ _ [] = _
+              simp only [upd, hne0, if_false]; rw [d3]
+            · rw [(rup_fields m k _ p st.a depth _).1]
+              show upd (rdown t p st).1.nN _ _ p = _
+              simp only [upd, hnep, if_false]; rw [d1]; simp [upd]
+            · have hne : q ≠ p := fun h => hq (h ▸ List.prefix_refl _)
+              have hqc : q ≠ p ++ [(st.a, st.o)] := fun h => hq (h ▸ List.prefix_append _ _)
+              rw [(rup_fields m k _ p st.a depth _).1]
+              show upd (rdown t p st).1.nN _ _ q = _
+              simp only [upd, hqc, if_false]; rw [d1]; simp [upd, hne]
             · have h1 := hdown pend hI
               have h2 : RCnt (upd pend p (pend p + 1)) (rleaf (rdown t p st).1 (p ++ [(st.a, st.o)])) := by
                 refine ⟨fun q => ?_, fun q a hqa => h1.out q a hqa⟩
@@ -1660,6 +1685,70 @@ theorem rsim_spec (m : Mdl) (H k : Nat) : ∀ (fuel : Nat) (t : RTree) (p : Path
             · rw [(rup_fields m k _ p st.a depth _).2.1]
               left; show (rdown t p st).1.nA q = t.nA q; rw [d2]
       · simp at h
+
+/-- `n` simulations from the root -/
+theorem rrunSims_spec (m : Mdl) (H k : Nat) (hH : 0 < H) : ∀ (n : Nat) (t : RTree) (log : List Step) (t' : RTree) (rest : List Step),
+    rrunSims m H k n t log = some (t', rest) →
+    (∃ useds : List (List Step), log = useds.flatten ++ rest ∧ useds.length = n ∧ ∀ u ∈ useds, u.length ≤ H ∧ ∃ s, IsChain s u) ∧
+    (RCnt (fun _ => 0) t → RCnt (fun _ => 0) t') ∧ t'.stops [] = t.stops [] ∧ t'.nN [] = t.nN [] + n := by
+  intro n
+  induction n with
+  | zero =>
+    intro t log t' rest h
+    simp [rrunSims] at h
+    obtain ⟨rfl, rfl⟩ := h
+    exact ⟨⟨[], rfl, rfl, by simp⟩, id, rfl, rfl⟩
+  | succ n ih =>
+    intro t log t' rest h
+    cases log with
+    | nil => simp [rrunSims] at h
+    | cons st log =>
+      simp only [rrunSims] at h
+      split at h
+      · split at h
+        · simp at h
+        · rename_i t1 r log' hsim
+          obtain ⟨⟨used, hu, hlen, hch⟩, hcnt, _, hst, hN1, _⟩ := rsim_spec m H k _ _ _ _ _ _ _ _ _ hH hsim
+          obtain ⟨⟨useds, hus, hl, hall⟩, hc2, hst2, hN2⟩ := ih _ _ _ _ h
+          refine ⟨⟨used :: useds, by rw [hu, hus]; simp, by simp [hl], ?_⟩, fun hI => hc2 (hcnt _ hI), by rw [hst2, hst], by rw [hN2, hN1]; omega⟩
+          intro u hu'
+          simp only [List.mem_cons] at hu'
+          rcases hu' with rfl | hu'
+          · exact ⟨by simpa using hlen, st.s, hch⟩
+          · exact hall u hu'
+      · simp at h
+
+/-- **rPOMCP, fresh call**: the logged calls split into `iterations` chains of at most `horizon` calls each (no
+    simulation runs past the requested horizon), the root's visit count is `iterations` and equals the sum over its
+    actions; on every other node `N = Σ_a N(a) + leaf visits`. -/
+theorem rcall_fresh_spec (m : Mdl) (k : Nat) (t t' : RTree) (support : List Nat) (nA H iters : Nat) (log rest : List Step)
+    (hH : 0 < H) (hc : rcall m k t (Op.fresh support nA H iters) log = some (t', rest)) :
+    (∃ useds : List (List Step), log = useds.flatten ++ rest ∧ useds.length = iters ∧ ∀ u ∈ useds, u.length ≤ H ∧ ∃ s, IsChain s u) ∧
+    t'.nN [] = iters ∧ t'.nN [] = sumTo (t'.aN []) (t'.nA []) ∧
+    ∀ q, t'.nN q = sumTo (t'.aN q) (t'.nA q) + t'.stops q := by
+  unfold rcall at hc
+  simp only at hc
+  split at hc
+  · omega
+  · split at hc
+    · simp at hc
+    · rename_i t1 rest' hr
+      simp at hc
+      obtain ⟨rfl, rfl⟩ := hc
+      have h0 : RCnt (fun _ => 0) (RTree.fresh support nA) := by
+        refine ⟨fun q => ?_, fun q a _ => rfl⟩
+        show 0 = sumTo (fun _ => 0) _ + 0 + 0
+        rw [sumTo_zero _ (fun _ => rfl)]
+      obtain ⟨hsplit, hcnt, hst, hN⟩ := rrunSims_spec m H k hH _ _ _ _ _ hr
+      have h1 := hcnt h0
+      have hs0 : t1.stops [] = 0 := by rw [hst]; rfl
+      refine ⟨hsplit, by show t1.nN [] = iters; rw [hN]; simp [RTree.fresh], ?_, fun q => ?_⟩
+      · have := h1.cnt []
+        show t1.nN [] = sumTo (t1.aN []) (t1.nA [])
+        rw [hs0] at this; simpa using this
+      · have := h1.cnt q
+        show t1.nN q = sumTo (t1.aN q) (t1.nA q) + t1.stops q
+        simpa using this
 
 end R
 
